@@ -11,7 +11,7 @@ ID = 'C17'
 LEVEL = 'exploration'
 BUDGET = {'quick': 200, 'thorough': 2400}
 CHUNK = 2
-RULE = ('Cases: an ancestor with substitution sites >= 2k apart and >= 2k from the ends, 3..10 samples, 2..4 alleles per site, '
+RULE = ('Cases: an ancestor with substitution sites >= 2k apart and >= 2k from the ends, 3..10 samples, 2..4 alleles per site (one case in a hundred: 5..7 consecutive sites that all carry all four bases), output prefixes with and without dots, -n at its default, 0, 2 and 10, '
         'samples written in random orientation; the generator checks that every (k-1)-mer over the union of the sample sequences '
         'occurs at one locus on both strands and none is self-complementary.  Reference-free (k in {7,9,11,15,17,21,31,33}): the '
         'column multiset of <out>_snps.fas must equal the planted truth up to order and whole-column complement, names in input '
@@ -24,7 +24,7 @@ RULE = ('Cases: an ancestor with substitution sites >= 2k apart and >= 2k from t
 ASSUMPTIONS = ['the planted truth is the oracle; well-formedness is a direct predicate on the output',
                'union-of-samples uniqueness (DESIGN.md section 8); sites at least 2k from the sequence ends']
 REQUIRED = {t: ['mode:free', 'mode:ref', 'mode:wf', 'ref:ancestor', 'ref:revcomp', 'ref:sample', 'threads>1', 'jitter_runs',
-                'sites_called', 'multiallelic_sites', 'wf_columns_checked', 'vcf_records_checked', 'reference_with_N', 'runs_over_existing_output', 'reference_route:plain', 'reference_route:gz', 'reference_route:gz-multi'] for t in ('quick', 'thorough')}
+                'sites_called', 'multiallelic_sites', 'wf_columns_checked', 'vcf_records_checked', 'reference_with_N', 'runs_over_existing_output', 'reference_route:plain', 'reference_route:gz', 'reference_route:gz-multi', 'runs_of_four_allelic_sites', 'dotted_output_prefix', 'runs_with_-n_0'] for t in ('quick', 'thorough')}
 FREE_K = [7, 9, 11, 15, 17, 21, 31, 33]
 REF_K = [15, 17, 21, 31, 33]
 
@@ -50,7 +50,10 @@ def plan(tier, seed, rng, scale):
                           'seed': rng.getrandbits(32)})
         else:
             descs.append({'mode': 'wf', 'k': rng.choice([15, 17, 21, 31]), 'seed': rng.getrandbits(32)})
+    for i in range(int((60 if tier == 'quick' else 500) * scale)):
+        descs.insert(rng.randrange(len(descs)), {'mode': rng.choice(['free', 'ref']), 'k': rng.choice([15, 17, 21]), 'refkind': 'ancestor', 'all4': True, 'seed': rng.getrandbits(32)})
     for d in descs:
+        d['n'] = rng.choice([None, None, None, '0', '2', '10'])
         d['threads'] = rng.choice([1, 1, 2, 3, 4, 8])
         d['jitter'] = rng.getrandbits(16) if rng.random() < 0.3 else None
         d['m'] = rng.choice(['0.1', '0.1', '0.2', '0.4'])
@@ -71,7 +74,7 @@ def union_unique(seqs, k1):
     return True
 
 
-def gen_snps(rng, k, nsnp, ns):
+def gen_snps(rng, k, nsnp, ns, all4=False):
     for _ in range(300):
         L = 4 * k + (nsnp - 1) * (2 * k + rng.randint(0, k)) + rng.randint(0, 3 * k)
         anc = G.rseq(rng, L)
@@ -88,11 +91,11 @@ def gen_snps(rng, k, nsnp, ns):
         truth = {}
         for s in sites:
             alts = [b for b in 'ACGT' if b != anc[s]]
-            nall = rng.choice([2, 2, 2, 3, 4])
+            nall = 4 if all4 and ns >= 4 else rng.choice([2, 2, 2, 3, 4])
             alleles = [anc[s]] + rng.sample(alts, nall - 1)
             while True:
                 assign = [rng.choice(alleles) for _ in range(ns)]
-                if len(set(assign)) >= 2:
+                if len(set(assign)) >= (nall if all4 and ns >= 4 else 2):
                     break
             for i in range(ns):
                 samples[i][s] = assign[i]
@@ -196,7 +199,13 @@ def run_case(desc, ctx):
         anc, ss = gen_clustered(rng, k)
         truth = None
     else:
-        g = gen_snps(rng, k, rng.randint(1, 6), ns)
+        if desc.get('all4'):
+            # runs of consecutive sites that all carry all four bases: the number of candidate paths grows as 4^sites
+            ns = max(ns, rng.randint(6, 10))
+            g = gen_snps(rng, k, rng.randint(5, 7), ns, all4=True)
+            res.count('runs_of_four_allelic_sites')
+        else:
+            g = gen_snps(rng, k, rng.randint(1, 6), ns)
         if g is None:
             res.count('generator_gave_up')
             return res
@@ -211,7 +220,13 @@ def run_case(desc, ctx):
     p = G.ska_build(ctx, ctx.path('o'), files, k, True)
     if p.returncode != 0:
         raise Inconclusive('build failed: ' + p.stderr[-200:])
-    args = ['lo', ctx.path('o.skf'), ctx.path('out'), '--threads', desc['threads'], '-m', desc['m']]
+    # output prefix with or without dots in its last component; -n (indel k-mers allowed inside a path) at its default, at 0 and above
+    OUT = 'out' if desc['seed'] % 3 else 'res.k%d.v1' % k
+    if OUT != 'out':
+        res.count('dotted_output_prefix')
+    args = ['lo', ctx.path('o.skf'), ctx.path(OUT), '--threads', desc['threads'], '-m', desc['m']] + (['-n', desc['n']] if desc.get('n') is not None else [])
+    if desc.get('n') == '0':
+        res.count('runs_with_-n_0')
     refseq = None
     if mode in ('ref', 'wf'):
         if mode == 'wf':
@@ -255,7 +270,7 @@ def run_case(desc, ctx):
         if g2 is not None:
             f2 = [G.write_fa(ctx.path('prev%d.fa' % i), [s_]) for i, s_ in enumerate(g2[1])]
             if G.ska_build(ctx, ctx.path('prev'), f2, k, True).returncode == 0:
-                pargs = ['lo', ctx.path('prev.skf'), ctx.path('out'), '-m', '0.4']
+                pargs = ['lo', ctx.path('prev.skf'), ctx.path(OUT), '-m', '0.4']
                 if '-r' in args:
                     ctx.write('prevref.fa', '>R\n%s\n' % (g2[0] + G.rseq(r2, 300)))
                     pargs += ['-r', ctx.path('prevref.fa')]
@@ -266,7 +281,7 @@ def run_case(desc, ctx):
     detail = {'k': k, 'mode': mode, 'ancestor': anc, 'samples': ss, 'truth': truth, 'threads': desc['threads'], 'jitter': desc.get('jitter'),
               'refkind': desc.get('refkind'), 'm': desc['m']}
     sig = 'C17:' + mode
-    names, seqs = read_fasta_file(ctx.path('out_snps.fas'))
+    names, seqs = read_fasta_file(ctx.path(OUT + '_snps.fas'))
     if mode == 'wf':
         if p.returncode != 0:
             res.count('wf_lo_exit_nonzero')       # e.g. no variant at all: nothing to judge
@@ -313,9 +328,9 @@ def run_case(desc, ctx):
         L = len(refseq)
         isrc = desc['refkind'] == 'revcomp'
         try:
-            vlines = [l.rstrip('\n').split('\t') for l in open(ctx.path('out_snps.vcf')) if not l.startswith('#')]
-            hdr = [l for l in open(ctx.path('out_snps.vcf')) if l.startswith('#CHROM')]
-            pg_names, pg = M.parse_fasta(open(ctx.path('out_pseudo_genomes.fas')).read())
+            vlines = [l.rstrip('\n').split('\t') for l in open(ctx.path(OUT + '_snps.vcf')) if not l.startswith('#')]
+            hdr = [l for l in open(ctx.path(OUT + '_snps.vcf')) if l.startswith('#CHROM')]
+            pg_names, pg = M.parse_fasta(open(ctx.path(OUT + '_pseudo_genomes.fas')).read())
         except OSError as e:
             res.violate(sig + ':missing-file', 'reference mode output file missing: %s' % e, detail)
             return res
